@@ -213,6 +213,6 @@ def replay(data):
         print(sr.verdict, sr.stderr[-300:])
         for r in sorted(sr.outs):
             print(r, sr.outs[r])
-        return False
+        return sr.verdict == "ok" and not data.get("signature", "").startswith("dtor-")
     binary, err = C.build_harness("traffic")
     return K.replay_case(binary, data, WANT, extra)
